@@ -86,6 +86,88 @@ fn every_method_pass() -> Vec<Op> {
     .collect()
 }
 
+/// boundary arguments for every parameter kind (modes with 0 / special / type bits, empty payloads and line
+/// lists, existing targets, unclean path spellings): a wrapper that re-implements a method instead of delegating
+/// it tends to differ exactly there
+fn boundary_pass() -> Vec<Op> {
+    let s = |x: &str| x.to_string();
+    let mut v = vec![Op::MkdirP(s("/q"))];
+    for (i, m) in [0u32, 0o1, 0o400, 0o644, 0o777, 0o4755, 0o7777, 0o100644, 0o40755].iter().enumerate() {
+        let (f, d, c, cc) = (format!("/q/f{}", i), format!("/q/d{}", i), format!("/q/c{}", i), format!("/q/cc{}", i));
+        v.extend(vec![
+            Op::MkfileM(f.clone(), *m),
+            Op::Mode(f.clone()),
+            Op::MkfileM(f.clone(), 0o640), // existing target
+            Op::Mode(f.clone()),
+            Op::MkdirM(d.clone(), *m),
+            Op::Mode(d.clone()),
+            Op::MkdirM(d.clone(), 0o750), // existing target
+            Op::Mode(d.clone()),
+            Op::Mkfile(c.clone()),
+            Op::Chmod(c.clone(), *m),
+            Op::Mode(c.clone()),
+            Op::ChmodB(c.clone(), ChmodO { all: Some(*m), dirs: None, files: None, sym: None, recurse: None, follow: false }),
+            Op::Mode(c.clone()),
+            Op::WriteAll(c.clone(), b"x".to_vec()),
+            Op::CopyB(c.clone(), cc.clone(), CopyMode::All(*m), false),
+            Op::Mode(cc.clone()),
+            Op::CopyB(c.clone(), cc.clone(), CopyMode::Files(0o604), false), // existing target
+            Op::Mode(cc.clone()),
+        ]);
+    }
+    v.extend(vec![
+        Op::WriteAll(s("/q/e1"), vec![]),
+        Op::WriteLines(s("/q/e2"), vec![]),
+        Op::WriteLines(s("/q/e3"), vec![s(""), s("a\nb"), s("")]),
+        Op::AppendAll(s("/q/e4"), vec![]),
+        Op::AppendLine(s("/q/e5"), s("")),
+        Op::AppendLines(s("/q/e6"), vec![]),
+        Op::AppendLines(s("/q/e3"), vec![s("")]),
+        Op::WriteH(s("/q/e7"), vec![]),
+        Op::AppendH(s("/q/e8"), vec![]),
+        Op::WriteAll(s("/q/d3"), b"onto a directory".to_vec()),
+        Op::AppendAll(s("/q/missing/x"), b"no parent".to_vec()),
+        Op::Symlink(s("/q/l1"), s("")),
+        Op::Symlink(s("/q/l2"), s("/q/e1")),
+        Op::Symlink(s("/q/l2"), s("/q/e2")), // existing link
+        Op::Symlink(s("/q/e1"), s("/q/e2")), // existing file
+        Op::MkdirP(s("/q/e1/below-a-file")),
+        Op::Mkfile(s("/q/d3")),
+        Op::Chown(s("/q/e1"), 0, 0),
+        Op::Chown(s("/q/e1"), u32::MAX - 1, u32::MAX - 1),
+        Op::MoveP(s("/q/e1"), s("/q/e1")),
+        Op::MoveP(s("/q"), s("/q/d3/in-itself")),
+        Op::Copy(s("/q/e2"), s("/q/e2")),
+        Op::Remove(s("/q/d3")),
+        Op::Remove(s("/q/nope")),
+        Op::RemoveAll(s("/q/nope")),
+    ]);
+    for p in ["", "/", "/q/../q/./e2", "//q//e2", "/q/e2/", "/q/e2/.", "/q/l2", "/q/l1", "/q/d0/x"] {
+        let p = p.to_string();
+        v.extend(vec![
+            Op::ReadAll(p.clone()),
+            Op::ReadLines(p.clone()),
+            Op::ReadBytes(p.clone()),
+            Op::Exists(p.clone()),
+            Op::IsFile(p.clone()),
+            Op::IsDir(p.clone()),
+            Op::Mode(p.clone()),
+            Op::Abs(p.clone()),
+            Op::Readlink(p.clone()),
+            Op::ReadlinkAbs(p.clone()),
+            Op::Entry(p.clone()),
+            Op::Paths(p.clone()),
+            Op::AllPaths(p.clone()),
+            Op::Entries(p.clone()),
+            Op::Mkfile(p.clone()),
+            Op::MkdirP(p.clone()),
+            Op::WriteAll(p.clone(), b"w".to_vec()),
+            Op::AppendLine(p.clone(), s("l")),
+        ]);
+    }
+    v
+}
+
 fn entry_accessors_memfs(v: &Vfs, paths: &[String], rep: &mut Report) {
     for p in paths {
         let items: Vec<VfsEntry> = {
@@ -280,6 +362,9 @@ fn c13(ctx: &Ctx, rep: &mut Report) {
     let pass = every_method_pass();
     run_memfs_transcript(&pass, rep, "every-method pass");
     run_stdfs_transcript(&pass, &ra, &rb, rep, "every-method pass");
+    let pass = boundary_pass();
+    run_memfs_transcript(&pass, rep, "boundary-argument pass");
+    run_stdfs_transcript(&pass, &ra, &rb, rep, "boundary-argument pass");
     let paths = namespace(&["a", "b", "c"], 3);
     let mut rng = ctx.rng("c13");
     let n = if ctx.thorough { 20_000 } else { 400 } / ctx.shards + 1;
